@@ -8,7 +8,7 @@ def textOk (s : List Nat) : Prop := validText s ∧ (toUnits s).length ≤ 4000
 def pcVal (env : Env) (p : PC) : Val :=
   match p.phys with
   | .number x => fmtF64 x env.fmts[p.xf]? env.is1904
-  | .rk w => fmtNum env.ops (rkNum env.ops w) env.fmts[p.xf]? env.is1904
+  | .rk w => fmtNum (rkNum env.ops w) env.fmts[p.xf]? env.is1904
   | .label _ s => .str s
   | .labelSst i => .str (env.strings[i]?.getD [])
   | .bool b => .bool b
@@ -30,7 +30,7 @@ def PCok (env : Env) (p : PC) : Prop :=
   | .number x => x < 18446744073709551616
   | .rk w => w < 4294967296
   | .label _ s => textOk s
-  | .labelSst i => i < 4294967296 ∧ ∃ s, env.strings[i]? = some s ∧ s ≠ []
+  | .labelSst i => i < 4294967296 ∧ ∃ s, env.strings[i]? = some s
   | .bool _ => True
   | .err _ => True
   | .formula c rgce => rgce.length ≤ 255 ∧
@@ -95,9 +95,9 @@ theorem runRecs_phys (env : Env) (st : St) (p : PC) (h : PCok env p) :
     exact ⟨st.fmla, runRecs_one _ _ _ _ (step_label env st p wide s hr hc' hx hp.1 (textOk_len hp))⟩
   | labelSst i =>
     rw [hph] at hp; simp only at hp ⊢
-    obtain ⟨hi, s, hs, hne⟩ := hp
+    obtain ⟨hi, s, hs⟩ := hp
     refine ⟨st.fmla, ?_⟩
-    rw [runRecs_one _ _ _ _ (step_labelSst env st p i s hr hc' hx hi hs hne), hs]; rfl
+    rw [runRecs_one _ _ _ _ (step_labelSst env st p i s hr hc' hx hi hs), hs]; rfl
   | bool b =>
     simp only
     refine ⟨st.fmla, runRecs_one _ _ _ _ ?_⟩
@@ -454,9 +454,6 @@ def lvalOk : LVal → Prop
 /-- a logical cell inside the BIFF8 grid with a representable value -/
 def cellOk (c : LCell) : Prop := c.row < 65536 ∧ c.col < 256 ∧ lvalOk c.val
 
-/-- the XF carries no date/time format (so numbers read as Int/Float, C10 covers the rest) -/
-def plainFmt (env : Env) (xf : Nat) : Prop := env.fmts[xf]? = none ∨ env.fmts[xf]? = some Fmt.other
-
 theorem filter_ignorable (l : List Rec) : ∀ r ∈ l.filter ignorable, ignorable r = true := by
   intro r hr; exact (List.mem_filter.mp hr).2
 
@@ -472,7 +469,7 @@ theorem planCell_ok (env : Env) (c : LCell) (l : Lay) (h : cellOk c) : PCok env 
       cases e with
       | number => simp [choose]; exact hv
       | rk w =>
-        by_cases hcond : w < 4294967296 ∧ numBits env.ops (rkSpec env.ops w) = x
+        by_cases hcond : w < 4294967296 ∧ numBits (rkSpec env.ops w) = x
         · simp only [choose, if_pos hcond]; exact hcond.1
         · simp only [choose, if_neg hcond]; exact hv
     | label w => simp [choose]; exact hv
@@ -489,8 +486,8 @@ theorem planCell_ok (env : Env) (c : LCell) (l : Lay) (h : cellOk c) : PCok env 
     | num e => simp [choose]; exact hv
     | label w => simp [choose]; exact hv
     | labelSst i =>
-      by_cases hcond : i < 4294967296 ∧ env.strings[i]? = some s ∧ s ≠ []
-      · simp only [choose, if_pos hcond]; exact ⟨hcond.1, s, hcond.2.1, hcond.2.2⟩
+      by_cases hcond : i < 4294967296 ∧ env.strings[i]? = some s
+      · simp only [choose, if_pos hcond]; exact ⟨hcond.1, s, hcond.2⟩
       · simp only [choose, if_neg hcond]; exact hv
     | boolerr => simp [choose]; exact hv
     | formula rgce w b b3 =>
@@ -514,50 +511,60 @@ theorem planCell_ok (env : Env) (c : LCell) (l : Lay) (h : cellOk c) : PCok env 
     | labelSst i => simp [choose]
     | boolerr => simp [choose]
 
-theorem fmtF64_plain (env : Env) (xf x : Nat) (h : plainFmt env xf) : fmtF64 x env.fmts[xf]? env.is1904 = .float x := by
-  rcases h with h | h <;> simp [fmtF64, h]
+theorem fmtNum_typeNum (n : Num) (fmt : Option CellFormat) (d : Bool) : fmtNum n fmt d = typeNum fmt d n := by
+  cases n <;> (cases fmt with | none => rfl | some f => cases f <;> rfl)
 
-theorem fmtNum_plain (env : Env) (xf : Nat) (n : Num) (h : plainFmt env xf) :
-    numView env.ops (fmtNum env.ops n env.fmts[xf]? env.is1904) = .float (numBits env.ops n) := by
-  cases n <;> rcases h with h | h <;> simp [fmtNum, fmtI64, fmtF64, h, numView, numBits]
+theorem fmtF64_typeNum (x : Nat) (fmt : Option CellFormat) (d : Bool) : fmtF64 x fmt d = typeNum fmt d (.float x) :=
+  fmtNum_typeNum (.float x) fmt d
 
-/-- what the reader shows for a planned cell is the logical value (an `Int` counting as its double) -/
-theorem planCell_val (env : Env) (c : LCell) (l : Lay) (hf : plainFmt env (l.xf % 65536)) :
-    numView env.ops (pcVal env (planCell env c l)) = c.val.toVal := by
-  simp only [planCell, pcVal]
+/-- what the model reads for a planned cell is what the specification expects for the logical cell under its
+    layout entry: the RkNumber reading for a valid RK word (integers as `Int`), the double otherwise, typed by the
+    XF's format class; strings, booleans and errors as they are -/
+theorem planCell_expect (env : Env) (c : LCell) (l : Lay) :
+    pcVal env (planCell env c l) = expectVal env c l := by
+  simp only [planCell, pcVal, expectVal]
   cases hval : c.val with
   | num x =>
     cases henc : l.enc with
     | num e =>
       cases e with
-      | number => simp [choose, fmtF64_plain env _ x hf, numView, LVal.toVal]
+      | number => simp [choose, numContent, fmtF64_typeNum]
       | rk w =>
-        by_cases hcond : w < 4294967296 ∧ numBits env.ops (rkSpec env.ops w) = x
-        · simp only [choose, if_pos hcond]
-          rw [fmtNum_plain env _ _ hf, rkNum_eq_rkSpec, hcond.2]; rfl
-        · simp [choose, hcond, fmtF64_plain env _ x hf, numView, LVal.toVal]
-    | label w => simp [choose, fmtF64_plain env _ x hf, numView, LVal.toVal]
-    | labelSst i => simp [choose, fmtF64_plain env _ x hf, numView, LVal.toVal]
-    | boolerr => simp [choose, fmtF64_plain env _ x hf, numView, LVal.toVal]
+        by_cases hcond : w < 4294967296 ∧ numBits (rkSpec env.ops w) = x
+        · simp only [choose, numContent, if_pos hcond]
+          rw [fmtNum_typeNum, rkNum_eq_rkSpec]
+        · simp [choose, numContent, hcond, fmtF64_typeNum]
+    | label w => simp [choose, numContent, fmtF64_typeNum]
+    | labelSst i => simp [choose, numContent, fmtF64_typeNum]
+    | boolerr => simp [choose, numContent, fmtF64_typeNum]
     | formula rgce w b b3 =>
       by_cases hcond : x / 281474976710656 = 65535
-      · simp [choose, hcond, fmtF64_plain env _ x hf, numView, LVal.toVal]
-      · simp [choose, hcond, fmtF64_plain env _ x hf, numView, LVal.toVal]
+      · simp [choose, numContent, hcond, fmtF64_typeNum]
+      · simp [choose, numContent, hcond, fmtF64_typeNum]
   | str s =>
     cases henc : l.enc with
-    | num e => simp [choose, numView, LVal.toVal]
-    | label w => simp [choose, numView, LVal.toVal]
+    | num e => simp [choose, LVal.toVal]
+    | label w => simp [choose, LVal.toVal]
     | labelSst i =>
-      by_cases hcond : i < 4294967296 ∧ env.strings[i]? = some s ∧ s ≠ []
-      · simp [choose, hcond, numView, LVal.toVal]
-      · simp [choose, hcond, numView, LVal.toVal]
-    | boolerr => simp [choose, numView, LVal.toVal]
+      by_cases hcond : i < 4294967296 ∧ env.strings[i]? = some s
+      · simp [choose, hcond, LVal.toVal]
+      · simp [choose, hcond, LVal.toVal]
+    | boolerr => simp [choose, LVal.toVal]
     | formula rgce w b b3 =>
       by_cases hcond : s = [] ∧ b3 = true
-      · simp [choose, hcond, numView, LVal.toVal]
-      · simp [choose, hcond, numView, LVal.toVal]
-  | bool b => cases henc : l.enc <;> simp [choose, numView, LVal.toVal]
-  | err k => cases henc : l.enc <;> simp [choose, numView, LVal.toVal]
+      · simp [choose, hcond, LVal.toVal]
+      · simp [choose, hcond, LVal.toVal]
+  | bool b => cases henc : l.enc <;> simp [choose, LVal.toVal]
+  | err k => cases henc : l.enc <;> simp [choose, LVal.toVal]
+
+/-- `plan` by index: cell `i` is planned under layout entry `i`, the default entry beyond the list -/
+theorem plan_getElem (env : Env) : ∀ (S : List LCell) (lays : List Lay) (i : Nat),
+    (plan env S lays)[i]? = S[i]?.map (fun c => planCell env c (lays[i]?.getD default))
+  | [], _, _ => by simp [plan]
+  | c :: cs, [], 0 => by simp [plan]
+  | c :: cs, [], i + 1 => by simp [plan, plan_getElem env cs [] i]
+  | c :: cs, l :: ls, 0 => by simp [plan]
+  | c :: cs, l :: ls, i + 1 => by simp [plan, plan_getElem env cs ls i]
 
 /-- every planned cell is `planCell` of a cell of the sheet under a layout entry (the default one beyond the list) -/
 theorem plan_mem (env : Env) : ∀ (S : List LCell) (lays : List Lay), ∀ p ∈ plan env S lays,
